@@ -356,6 +356,11 @@ pub fn pm1_impl(n: &Uint, b1: u64, b2: f64, verbosity: Verbosity) -> Option<(Vec
     };
     if b2 > MULTIEVAL_THRESHOLD {
         let (mut f2, n2) = pm1_stage2_polyeval(&zn, b2, g);
+        if f2.contains(n) {
+            // All prime factors of n were caught at the same step:
+            // this is not a factorization (same guard as check_gcd_factors).
+            return None;
+        }
         factors.append(&mut f2);
         nred = n2;
         logtime();
